@@ -30,7 +30,8 @@ class VirusColonySearchOptimization(OptimizationAbstract):
         self._config = VirusColonySearchOptimizationConfig(**parameters)
 
     def before_initialization(self):
-        self.__n_best = int(self._config.lamda * self._config.population_size)
+        # at least one best virus: the weighted mean of an empty selection is 0/0
+        self.__n_best = max(1, int(self._config.lamda * self._config.population_size))
 
     def optimization_step(self):
         def calculate_x_mean() -> list[float]:
